@@ -60,6 +60,14 @@ def cases(tier, seed):
         if i % 11 == 0:
             ab = [[1, 1], [-1, 1], [0, -2], [-3, 0], [1e-3, 1]][i % 5]
         out.append({"id": "lin-%d" % i, "kind": "linpol", "ckind": kind, "cfg": cfg, "ab": ab, "cost": 6 if kind in ("lens_mie", "multisphere") else 1})
+    # the T-matrix theory documents that it takes x polarization only: any other direction is either refused, or -- should it ever be
+    # accepted -- obeys the same linearity (tilted particles: the frame trick that works for spheres does not work for them)
+    for i in range(8 if tier == "quick" else 200):
+        kind = ["tmatrix_spheroid", "tmatrix_cylinder"][i % 2]
+        cfg = scat.gen_config(rng, kind)
+        cfg["scat"]["rot"] = [0.0, float(rng.uniform(0.3, 2.8)), float(rng.uniform(0, 6.28))]
+        ab = [[-1.0, 0.0], [0.0, 1.0], [float(rng.normal()), float(rng.normal())], [0.0, -2.0]][i % 4]
+        out.append({"id": "tmpol-%d" % i, "kind": "tmpol", "ckind": kind, "cfg": cfg, "ab": ab, "cost": 6})
     nm = 60 if tier == "quick" else 1500
     for i in range(nm):
         nch = 2 + i % 2
@@ -70,6 +78,9 @@ def cases(tier, seed):
         scaling = {str(l): float(rng.uniform(0.3, 1.2)) for l in labs}
         noise = {str(l): float(rng.uniform(0.01, 0.2)) for l in labs}
         nidx = {str(l): nmed * float(rng.uniform(1.05, 1.6)) for l in labs}
+        if i % 5 in (1, 3):
+            # an absorbing particle whose absorption differs from channel to channel: complex per-channel indices ([re, im] through JSON)
+            nidx = {l: [v, float(loguniform(rng, 1e-3, 0.3))] for l, v in nidx.items()}
         rad = {str(l): float(rng.uniform(0.2, 0.8)) for l in labs}
         lens = i % 3 == 2
         out.append({"id": "multi-%d" % i, "kind": "multi", "labels": labs, "nmed": nmed, "wl": wl, "pol": pol, "scaling": scaling, "noise": noise,
@@ -168,6 +179,29 @@ def _run_linpol(case):
     return {"resid": resid, "flags": {}, "fmax": fnum(float(np.abs(fab).max())), "qeps1": cfg["theory"].get("kw", {}).get("qeps1", 1e-5)}
 
 
+def _run_tmpol(case):
+    cfg = case["cfg"]
+    o = cfg["optics"]
+    s = scat.build_scatterer(cfg["scat"])
+    th = scat.build_theory(cfg["theory"])
+    det = scat.build_detector(cfg["det"])
+    a, b = case["ab"]
+    fx = _calc_field(det, s, th, dict(o, illum_polarization=[1, 0])).values
+    got = {}
+    for nm, pol in (("ab", [a, b]), ("y", [0, 1]), ("minus_x", [-1, 0])):
+        try:
+            got[nm] = _calc_field(det, s, th, dict(o, illum_polarization=pol)).values
+        except ValueError:
+            got[nm] = None
+    refused = [k for k, v in got.items() if v is None]
+    flags = {"refusal_is_consistent": bool(len(refused) in (0, 3))}
+    resid = {}
+    if not refused:
+        resid["pol_linear@Tmatrix"] = relmax(got["ab"], (a * fx + b * got["y"]) / math.hypot(a, b))
+        resid["pol_linear@Tmatrix"] = max(resid["pol_linear@Tmatrix"], relmax(got["minus_x"], -fx))
+    return {"resid": resid, "flags": flags, "fmax": fnum(float(np.abs(fx).max())), "refused": refused}
+
+
 def _lab(l, labels):
     """labels travel through JSON as strings for dict keys; map back to the original label"""
     for x in labels:
@@ -187,6 +221,7 @@ def _run_multi(case):
     form = case["form"]
     key = lambda d: {_lab(k, labs): v for k, v in d.items()}
     wl, pol, scaling, noise, nidx, rad = [key(case[k]) for k in ("wl", "pol", "scaling", "noise", "n", "r")]
+    nidx = {l: (complex(v[0], v[1]) if isinstance(v, list) else v) for l, v in nidx.items()}
     perm = [labs[i] for i in rng.permutation(nch)]
 
     def as_array(d, order):
@@ -290,6 +325,8 @@ def judge(case, obs):
             tol = 1e-9        # the same iterative solver on the same numbers, once inside a multi-channel call and once on its own
         if t == "Lens":
             tol = max(tol, 1e-9)
+        if t == "Tmatrix":
+            tol = 1e-5        # (the Fortran code nudges angles by 1e-7)
         if not v <= tol:
             desc = {x: case[x] for x in case if x in ("ab", "ckind", "form", "labels", "nested", "theory")}
             out.append({"mech": "%s.%s" % (base, t), "detail": "%s=%.3e > %.0e; %s" % (k, v, tol, desc)})
